@@ -54,13 +54,6 @@ theorem validateTransform_iff (m : DbiMsg) (fv : Nat) (native : Bool) :
 
 /-! ### `loadDbi` in phases -/
 
-/-- `dbi_options.override_create_flags` of the message's DBI -/
-def ovrOf (c : Cfg) (m : DbiMsg) : Option Nat := (c.override.find? (·.1 = m.name)).map (·.2)
-
-/-- the flags a DBI is created with from a snapshot message: the override if there is one,
-    else the message's flags, truncated to `dbiflags.Flags` (16 bits) -/
-def createFlags (c : Cfg) (m : DbiMsg) : Nat := ((ovrOf c m).getD m.flags) % 2 ^ 16
-
 /-- the DBI a message is merged into -/
 def targetName (c : Cfg) (m : DbiMsg) : Bytes := if c.native then m.name else shadowName m.name
 
@@ -148,10 +141,6 @@ theorem loadDbi_eq (c : Cfg) (snap : Snap) (txnID cutoff : Nat) (w : W) (m : Dbi
 
 
 /-! ### consequences of the phase decomposition -/
-
-theorem loadDbi_private {c : Cfg} {snap : Snap} {txnID cutoff : Nat} {w : W} {m : DbiMsg}
-    (hp : isPrivate m.name = true) : loadDbi c snap txnID cutoff w m = .ok w := by
-  rw [loadDbi_eq, if_pos hp]
 
 theorem mergeDbi_ok {c : Cfg} {snap : Snap} {txnID cutoff : Nat} {w w' : W} {m : DbiMsg}
     (h : mergeDbi c snap txnID cutoff w m = .ok w') :
